@@ -314,7 +314,7 @@ theorem runCall_facts {o : Oracle} {fuel : Nat} {s s' : St} {t t' : Trace} {c : 
             · subst hi
               right
               obtain ⟨r1, r2⟩ := ring_ok_fresh hf
-              have := k11 [] ⟨hIe.init, r1, r2⟩
+              have := k11 [] ⟨hIe.init, r1, r2, ring_alloc_fresh hf⟩
               simpa using this
             · have := hi.init; rw [hini] at this; cases this⟩
         rotate_left 3
